@@ -2,6 +2,7 @@ package apprig
 
 import (
 	"crypto/ecdsa"
+	"encoding/base64"
 	"fmt"
 	"sort"
 	"strings"
@@ -47,6 +48,21 @@ func refusedTx(r *hx.Rand, u *Universe, g *genState, kind int, chain string, exe
 			return nil, ""
 		}
 		t := *executed[r.Intn(len(executed))]
+		if r.Chance(40) {
+			// the signature of an executed transaction in front of another payload: whoever that recovers to, it
+			// is not a keyper
+			a := t.Bytes(u)
+			other := g.validTx()
+			other.Chain = chain
+			other.Nonce = 1<<41 + r.U64()%1000
+			b := other.Bytes(u)
+			ra, err1 := base64.RawURLEncoding.DecodeString(string(a))
+			rb, err2 := base64.RawURLEncoding.DecodeString(string(b))
+			if err1 == nil && err2 == nil && len(ra) > 65 && len(rb) > 65 {
+				forged := append(append([]byte{}, ra[:65]...), rb[65:]...)
+				return &TxSpec{Garbage: []byte(base64.RawURLEncoding.EncodeToString(forged))}, "signature-of-another-transaction"
+			}
+		}
 		return &t, "replay"
 	default:
 		t := g.validTx()
@@ -58,6 +74,25 @@ func refusedTx(r *hx.Rand, u *Universe, g *genState, kind int, chain string, exe
 }
 
 func monitorC10(cfg CheckConfig, res *hx.Result, traces []*Trace) error {
+	// a sender with a long past: every one of its 1300 executed transactions, submitted again, is refused
+	{
+		u := NewUniverse(4)
+		lh := longSenderHistory(u)
+		tr := RunImpl(u, lh)
+		seen := map[uint64]bool{}
+		for i, op := range lh.Ops {
+			if op.Kind != "deliver" {
+				continue
+			}
+			if seen[op.Tx.Nonce] && strings.HasPrefix(tr.Impl[i].Obs, "code=0") {
+				res.Count("c10:long-history-replays")
+				specViolation(cfg, res, "refused-tx-effect", fmt.Sprintf("a replayed transaction (nonce %d of a sender with 1300 executed transactions) is executed again: %s", op.Tx.Nonce, tr.Impl[i].Obs), u, []*Op{lh.Ops[0], op})
+				return nil
+			}
+			seen[op.Tx.Nonce] = true
+		}
+		res.Count("c10:long-history-checked")
+	}
 	perHistory := 6
 	if cfg.Tier == "thorough" {
 		perHistory = 30
@@ -141,6 +176,12 @@ func monitorC10(cfg CheckConfig, res *hx.Result, traces []*Trace) error {
 			}
 			if x == nil {
 				continue
+			}
+			if x.Garbage != nil {
+				// bytes that decode: the sender they recover to is the one whose nonce record may change
+				if signer, _, ok := decodable(x.Garbage); ok {
+					outAddr = Dec(signer.Bytes())
+				}
 			}
 			malformed := strings.HasPrefix(class, "malformed:")
 			res.Count("c10:inject:" + strings.SplitN(class, ":", 2)[0])
@@ -303,7 +344,14 @@ func malformedTx(r *hx.Rand, u *Universe, g *genState, aim *Impl, nUniverse int,
 			return nil, ""
 		}
 		long := append(make([]byte, 1+r.Intn(12)), other.Bytes()...)
-		switch r.Intn(3) {
+		switch r.Intn(4) {
+		case 3:
+			// a commitment one of whose points is on the curve but outside the group
+			off := OffSubgroupGamma(u.ValidGamma(1))
+			if off == nil {
+				return nil, ""
+			}
+			p, class = Payload{Kind: "pc", A: e, Seq: [][]byte{u.ValidGamma(0), off}}, "malformed:pc-point-outside-the-group"
 		case 0:
 			p, class = Payload{Kind: "pe", A: e, Addrs: [][]byte{long}, Seq: [][]byte{{1, 2, 3}}}, "malformed:pe-address-length"
 		case 1:
